@@ -620,6 +620,25 @@ func (f *Frame) callMods(cc *ssa.CallCommon, ms *modSet) {
 		if o := callee.Origin(); o != nil {
 			t = o
 		}
+		if top := f.top(); top.contract != nil {
+			for i := range top.contract.AtCalls {
+				ac := &top.contract.AtCalls[i]
+				if ac.Let == "" || ac.Key != funcKey(t) {
+					continue
+				}
+				if ac.LetT == nil {
+					te := top.specEnv(top.entry, top.entry)
+					te.pol = 0
+					v := te.eval(ac.Clause.Expr)
+					if tt, ok := v.V.(*Term); ok {
+						ac.LetT, ac.LetS = v.T, tt.S
+					}
+				}
+				if ac.LetT != nil {
+					f.addComp(ms, "$let!"+ac.Let, ac.LetS)
+				}
+			}
+		}
 		if tc := f.ctx.eng.contractFor(t); tc != nil && tc.Traced {
 			f.addComp(ms, "$ncalls!"+funcKey(t), SInt)
 			sig := t.Signature
